@@ -17,7 +17,9 @@ from .serialization import (
     cell_to_parent,
     get_stride,
     is_first_child,
-    FIRST_HILBERT_RESOLUTION
+    FIRST_HILBERT_RESOLUTION,
+    HILBERT_START_BIT,
+    REMOVAL_MASK
 )
 from .cell_info import get_num_children
 
@@ -66,6 +68,17 @@ def uncompact(cells: List[int], target_resolution: int) -> List[int]:
     return result
 
 
+# Resolution 0 ids hold the bare origin in their top 6 bits, finer ids hold 5 * origin + segment
+_RES0_MARKER = 1 << (HILBERT_START_BIT - 1)
+
+
+def _hierarchical_key(cell: int) -> int:
+    """Sort key under which every cell lies within the span of its own children."""
+    if cell & REMOVAL_MASK == _RES0_MARKER:
+        return ((cell >> HILBERT_START_BIT) * 5 << HILBERT_START_BIT) | _RES0_MARKER
+    return cell
+
+
 def compact(cells: List[int]) -> List[int]:
     """
     Compacts a set of A5 cells by replacing complete groups of sibling cells with their parent cells.
@@ -80,7 +93,7 @@ def compact(cells: List[int]) -> List[int]:
         return []
 
     # Single sort and dedup
-    current_cells = sorted(set(cells))
+    current_cells = sorted(set(cells), key=_hierarchical_key)
 
     # Compact until no more changes
     # No re-sorting needed - parents maintain sorted order!
